@@ -65,6 +65,8 @@ fn alphabet() -> Vec<Op> {
         Op::Rec(5, 0.5),
         Op::Rec(6, 4.0),
         Op::Rec(7, 2.0),
+        Op::Rec(7, f64::INFINITY),
+        Op::Rec(5, f64::NAN),
         Op::Describe(0, "first", None),
         Op::Describe(0, "second", Some(Unit::Bytes)),
         Op::Describe(5, "hist", Some(Unit::Seconds)),
@@ -231,14 +233,15 @@ fn compare(fams: &[Family], m: &Model, cfg: Config) -> Result<(), (String, Strin
                         return e("histogram-count-wrong", format!("{}{:?}: _count {:?}, {} samples were recorded", f.name, l, count, vals.len()));
                     }
                     let s: f64 = vals.iter().sum();
-                    if sum != Some(s) {
+                    if sum != Some(s) && !(s.is_nan() && sum.map(|x| x.is_nan()) == Some(true)) {
                         return e("histogram-sum-wrong", format!("{}{:?}: _sum {:?}, samples sum to {}", f.name, l, sum, s));
                     }
                     if ty == "histogram" {
                         let mut inf_seen = false;
                         for b in f.samples.iter().filter(|s| s.name.ends_with("_bucket") && s.series_labels() == *l) {
                             let le = promtext::parse_value(b.label("le").unwrap_or("x")).unwrap_or(f64::NAN);
-                            let n = vals.iter().filter(|v| **v <= le).count() as u64;
+                            // the +Inf bucket is every sample ever recorded (NaN included), like _count
+                            let n = if le == f64::INFINITY { vals.len() as u64 } else { vals.iter().filter(|v| **v <= le).count() as u64 };
                             if b.value.parse::<u64>().ok() != Some(n) {
                                 return e("histogram-bucket-count-wrong", format!("{}{:?} le={}: {} but {} samples are <= le", f.name, l, le, b.value, n));
                             }
@@ -338,7 +341,7 @@ fn e3(ctx: &Ctx, res: &mut PartResult, cfg: Config, depth: usize, first: Option<
     for (sig, msg, seq) in fails {
         res.violation(&sig, msg, json!({"seq": seq}));
     }
-    res.sample(json!({"config": format!("{:?}", cfg), "ops": format!("{:?}", [alpha[0], alpha[1], alpha[17], alpha[11], alpha[18], alpha[17]])}));
+    res.sample(json!({"config": format!("{:?}", cfg), "ops": format!("{:?}", [alpha[0], alpha[1], alpha[19], alpha[11], alpha[20], alpha[19]])}));
 }
 
 /// a long history: 200 samples (multi-block buckets) with renders in between
@@ -519,7 +522,7 @@ fn main() {
     driver::main(CheckDef {
         prop: "C07",
         level: "model_checking",
-        rule: "E3: for each of 6 builder configurations (default summaries, global buckets, per-metric override, global labels with one overridden by a key label, custom quantiles, unit suffix) every sequence of the stated depth over 19 operations (counter increment/absolute, gauge set/increment incl. NaN, -0.0, 1e300, histogram record, first/second description of a name with and without a unit, render, run_upkeep; keys incl. equal keys built differently) on a fresh real PrometheusRecorder, plus a final render; every render is done twice (same line set, quantile lines aside), parsed by the strict independent parser and compared with the reference (families, series label sets = global overridden by key, counter totals, gauge bit round trip, _count/_sum conservation, bucket counts, HELP and unit suffix of the first description); a 200-sample multi-block history; E1: all SC interleavings of record() threads with a drainer thread (render, run_upkeep, render), also with 63 samples recorded beforehand (block hand-over) and with a second draining thread (run_upkeep x2, what the periodic upkeep task is to a scrape) (samples are distinct powers of two so every partial sum identifies the set of samples counted); distinct = distinct rendered line sets / outcomes",
+        rule: "E3: for each of 6 builder configurations (default summaries, global buckets, per-metric override, global labels with one overridden by a key label, custom quantiles, unit suffix) every sequence of the stated depth over 21 operations (counter increment/absolute, gauge set/increment incl. NaN, -0.0, 1e300, histogram record incl. +inf and NaN samples, first/second description of a name with and without a unit, render, run_upkeep; keys incl. equal keys built differently) on a fresh real PrometheusRecorder, plus a final render; every render is done twice (same line set, quantile lines aside), parsed by the strict independent parser and compared with the reference (families, series label sets = global overridden by key, counter totals, gauge bit round trip, _count/_sum conservation, bucket counts, HELP and unit suffix of the first description); a 200-sample multi-block history; E1: all SC interleavings of record() threads with a drainer thread (render, run_upkeep, render), also with 63 samples recorded beforehand (block hand-over) and with a second draining thread (run_upkeep x2, what the periodic upkeep task is to a scrape) (samples are distinct powers of two so every partial sum identifies the set of samples counted); distinct = distinct rendered line sets / outcomes",
         assumptions: &["E1: sequential consistency, one registry shard", "dyadic sample values so that sums are exact in any order"],
         parts,
         run,
